@@ -9,6 +9,8 @@ import WmModel.Props.C08Tie
 #print axioms Wm.Route.Old.agrees_on_nonempty
 #print axioms Wm.Route.handleOne_fn
 #print axioms Wm.Route.publishes_only_own
+#print axioms Wm.Route.done_context_irrelevant
+#print axioms Wm.Route.returned_outputs_published
 #print axioms Wm.Route.published_iff
 #print axioms Wm.Route.nopub_middleware_outputs_nack
 #print axioms Wm.Route.routes_to_own_fn
